@@ -103,7 +103,8 @@ def summarise(w, prof_name, seed, props, scenario, wall, sample):
         "crashes": dict(crashes), "harness": harness[:2], "trace_len": len(w.ch.trace),
         "nontrivial": {p: bool(profiles.nontrivial(p, w)) for p in props},
         "cmds": dict(getattr(getattr(w, "shell", None), "cmd_counts", {}) or {}),
-        "states": len(getattr(w, "status_states", ()) or ()),
+        "states": sorted(hashlib.blake2b(repr(x).encode(), digest_size=6).hexdigest()
+                         for x in (getattr(w, "status_states", ()) or ())),
         "n_vprocs": len(w.vprocs),
         "faults_detail": [(f["kind"], f.get("mode")) for f in getattr(getattr(w, "faults", None), "fired", [])][:4],
     }
@@ -450,7 +451,9 @@ def write_evidence(prop, tier, verif_seed, spec, props, results, wall, violation
     vtime = 0.0
     samples = []
     extra_counts = collections.Counter()
+    status_states = set()
     for r in ok:
+        status_states.update(r.get("states") or ())
         sched.add(r["sched"])
         if r["nontrivial"].get(prop) and r["digest"] not in digests:
             digests.add(r["digest"])
@@ -497,7 +500,7 @@ def write_evidence(prop, tier, verif_seed, spec, props, results, wall, violation
             "seeds": {"first": f"{verif_seed}/{spec['profiles'][0][0]}/0", "count": len(ok)},
             "simulated_seconds": round(vtime, 1), "steps": steps,
             "faults_fired": dict(faults), "probes": dict(probes),
-            "distinct_schedules": len(sched), "distinct_histories": len({r["digest"] for r in ok}),
+            "distinct_schedules": len(sched), "distinct_status_states": len(status_states), "distinct_histories": len({r["digest"] for r in ok}),
             "inconclusive_runs": dict(cuts), "harness_errors": len(harness_msgs),
             "jade_process_crashes": dict(crashes),
             "known_findings_hit": {f"{p}: {w_}": n for (p, w_), n in known_hits.items()},
